@@ -206,16 +206,24 @@ def gen_opts(rng, tier_full=True, allow_zstd=True):
     return o
 
 
-def gen_history(sch, root, rng, nrec, big=False, tiny=False):
+def gen_history(sch, root, rng, nrec, big=False, tiny=False, detour=True):
     """ops: set/w with occasional f; values evolve by mutation"""
     g = Gen(sch, rng, big=big, tiny=tiny, max_depth=2 if tiny else 4)
     rid = [i for i, s in enumerate(sch['structs']) if s['name'] == root][0]
     t = {'k': 'struct', 'id': rid}
     cur = g.value(t)
     ops = []
+    prev = None
     for i in range(nrec):
+        if detour and prev is not None and rng.chance(1, 3) and not g._has_append_array(t):
+            # a detour between two writes: the record is first set to another value (arrays shrink and
+            # grow again, oneofs switch away and back, optionals are unset and set), then to the one written
+            c = rng.below(3)
+            other = g.value(t) if c == 0 else g.mutate(t, prev if c == 1 else cur)
+            ops.append({'op': 'set', 'v': other, 'freeze': rng.chance(1, 2)})
         ops.append({'op': 'set', 'v': cur, 'freeze': rng.chance(1, 2)})
         ops.append({'op': 'w'})
+        prev = cur
         if rng.chance(1, 6):
             ops.append({'op': 'f'})
         if rng.chance(1, 8):
